@@ -11,6 +11,10 @@ def check(ctx):
     nk = ffi.check_kind_delegation(ctx, rep)
     nfp = ffi.check_failure_paths(ctx, rep)
     rep.floor("fallible lookups / index guards in the C API", nfp, 20)
+    ner = ffi.check_error_register(ctx, rep)
+    rep.floor("error register obligations", ner, 2)
+    nvd = ffi.check_verb_delegation(ctx, rep)
+    rep.floor("exported functions that mutate a collection", nvd, 5)
     nfl = ffi.check_named_flags(ctx, rep)
     rep.floor("utc-flag selected accessors", nfl, 2)
     rep.floor("kind-specific C functions (is_/get_/make_)", nk, 60)
